@@ -25,7 +25,7 @@ BUDGET = {'quick': (600, 1500), 'thorough': (1800, 3600)}
 TECHNIQUE = 'runtime monitoring: grammar-recogniser monitor (independent RFC 4880 11.3 parser) + differential import comparison'
 
 SIGNERS = ['ed25519_0', 'rsa1024_0', 'dsa1024_0', 'ecdsa_p256_0', 'ecdsa_k256_0']
-CONTENTS = ['empty', 'ascii', 'utf8', 'latin1', 'binary', 'crlf', 'big', 'far']
+CONTENTS = ['empty', 'ascii', 'utf8', 'latin1', 'binary', 'crlf', 'big', 'far', 'latin1x', 'utf16', 'cp1252']
 
 
 def cases(tier, seed):
@@ -58,6 +58,13 @@ def content_of(name, r):
         return 'ünïcödé 日本語 \U0001F600\nzweite Zeile', None
     if name == 'latin1':
         return 'latin1 text: é ü ß'.encode('latin-1'), 'latin-1'
+    # octets in a stated charset that would ALSO read as UTF-8 (to something else): the statement of the caller decides
+    if name == 'latin1x':
+        return 'price Â£5, cafÃ© â\x80\x99'.encode('latin-1'), 'latin-1'
+    if name == 'utf16':
+        return 'plain words\nsecond line'.encode('utf-16-le'), 'utf-16-le'
+    if name == 'cp1252':
+        return 'itâ€™s â€œquotedâ€\x9d'.encode('cp1252', 'ignore') + 'Ã¼'.encode('cp1252'), 'cp1252'
     if name == 'binary':
         return bytes(r.getrandbits(8) for _ in range(700)) + b'\x00\r\n\xff', None
     if name == 'crlf':
